@@ -300,6 +300,21 @@ fn exec_op<KF: Fam, VF: Fam>(t: &mut Mm<'_, KF, VF>, req: &[&str]) -> String {
     }
 }
 
+fn emit_image<KF: Fam, VF: Fam>(out: &mut Out, backend: &MemBackend, cfg: &Cfg, shadow: &Shadow, when: &str) {
+    let path = crate::image::save("mm", &backend.snapshot());
+    out.count("images");
+    let total: usize = shadow.committed.iter().map(|e| e.1.len()).sum();
+    out.line(&format!(
+        "img check {path} {} {when} m:multimap:{}:{}:{}:{}:{:016x}",
+        cfg.page,
+        KF::DESC,
+        VF::DESC,
+        shadow.committed.len(),
+        total,
+        dump_hash(&shadow.committed)
+    ));
+}
+
 fn run_program<KF: Fam, VF: Fam>(prog: &[String], out: &mut Out) -> bool {
     let def: MultimapTableDefinition<KF::K, VF::K> = MultimapTableDefinition::new("m");
     let mut shadow = Shadow::default();
@@ -350,6 +365,9 @@ fn run_program<KF: Fam, VF: Fam>(prog: &[String], out: &mut Out) -> bool {
                         txn.commit().expect("commit");
                         shadow.committed = shadow.cur.clone();
                         out.line("mm commit");
+                        if fnv64(&[prog[i - 1].as_bytes(), &i.to_le_bytes()]) % 3 == 0 {
+                            emit_image::<KF, VF>(out, &backend, &cfg, &shadow, "commit");
+                        }
                     } else {
                         txn.abort().expect("abort");
                         shadow.cur = shadow.committed.clone();
@@ -398,6 +416,9 @@ fn run_program<KF: Fam, VF: Fam>(prog: &[String], out: &mut Out) -> bool {
         }
     }));
     drop(db);
+    if res.is_ok() && prog.len() > 1 {
+        emit_image::<KF, VF>(out, &backend, &cfg, &shadow, "close");
+    }
     if let Err(p) = res {
         let msg = p.downcast_ref::<String>().cloned().or_else(|| p.downcast_ref::<&str>().map(|s| s.to_string())).unwrap_or_default();
         out.oracle_fail(format!("mm-panic|panic at program line {i} ({}): {}", prog.get(i).cloned().unwrap_or_default(), msg.lines().next().unwrap_or("")));
